@@ -106,14 +106,14 @@ func (pj *ParsedJson) stringAt(offset, length uint64) (string, error) {
 // stringByteAt returns a string at a specific offset in the stringbuffer.
 func (pj *ParsedJson) stringByteAt(offset, length uint64) ([]byte, error) {
 	if offset&STRINGBUFBIT == 0 {
-		if offset+length > uint64(len(pj.Message)) {
+		if offset+length > uint64(len(pj.Message)) || offset+length < offset {
 			return nil, fmt.Errorf("string message offset (%v) outside valid area (%v)", offset+length, len(pj.Message))
 		}
 		return pj.Message[offset : offset+length], nil
 	}
 
 	offset = offset & STRINGBUFMASK
-	if offset+length > uint64(len(pj.Strings.B)) {
+	if offset+length > uint64(len(pj.Strings.B)) || offset+length < offset {
 		return nil, fmt.Errorf("string buffer offset (%v) outside valid area (%v)", offset+length, len(pj.Strings.B))
 	}
 	return pj.Strings.B[offset : offset+length], nil
